@@ -48,7 +48,7 @@ ReadsLeaveTheContent == [][(ret' # NoRet /\ ret'[1] \in ReadsOf(Kind)) => Conten
 \* the classes partition the alphabet
 AlphabetIsPartitioned == /\ ReadsOf(Kind) \cap MutsOf(Kind) = {} /\ ReadsOf(Kind) \cap DerivsOf(Kind) = {} /\ MutsOf(Kind) \cap DerivsOf(Kind) = {}
                          /\ DrawsOf(Kind) \cap (ReadsOf(Kind) \cup MutsOf(Kind) \cup DerivsOf(Kind)) = {}
-                         /\ \A r \in ReadsOf(Kind) \cup DrawsOf(Kind) : Owner(Kind, r) \in {"C04", "C05", "C09", "C10", "C15", "C17", "C19"}
+                         /\ \A r \in ReadsOf(Kind) \cup DrawsOf(Kind) : Owner(Kind, r) \in {"C04", "C05", "C09", "C10", "C15", "C17", "C18", "C19"}
 
 ExportCase == (Export /\ script # <<>> /\ script[Len(script)] \in LastReads \cup DrawsOf(Kind)) => PrintT(<<"CASE", script>>)
 =============================================================================
